@@ -16,6 +16,9 @@ use serde_json::{json, Value};
 pub enum Case16 {
     /// every constructor on one shape, every index
     Construct { dims: Vec<usize>, vals: Vec<f64> },
+    /// as Construct + equality, with special values of the build's float type (subnormals, signed zeros,
+    /// smallest / largest normal numbers) chosen at run time
+    Special { dims: Vec<usize> },
     /// construction that must be refused
     Refuse(BadCtor),
     /// equality of x (dims, vals) against variants
@@ -217,10 +220,38 @@ fn run_refuse(b: &BadCtor) -> Result<(), (String, String)> {
     Ok(())
 }
 
+/// special values of the build's float type, as f64 (every one is exactly representable in `Float`)
+fn special_values(n: usize) -> Vec<f64> {
+    let tiny = Float::MIN_POSITIVE;
+    let pool: [Float; 12] = [tiny / 4.0, -(tiny / 8.0), tiny, -tiny, 0.0, -0.0, Float::MAX, Float::MIN, Float::MAX / 2.0, Float::EPSILON, 1.0, tiny * 3.0 / 4.0];
+    (0..n).map(|i| pool[(i * 5 + i / 12) % pool.len()] as f64).collect()
+}
+
+fn run_special(dims: &[usize]) -> Result<(), (String, String)> {
+    let vals = special_values(numel(dims));
+    run_construct(dims, &vals)?;
+    // an array with a subnormal is not equal to the same array with that element replaced by zero
+    let a = arr(dims, &vals);
+    for (i, v) in vals.iter().enumerate() {
+        if *v != 0.0 && v.abs() < Float::MIN_POSITIVE as f64 {
+            let mut z = vals.clone();
+            z[i] = 0.0;
+            if a == arr(dims, &z) {
+                return Err(("equality:subnormal-vs-zero".into(), format!("dims {:?}: the array with element {} = {:e} compares equal to the same array with 0.0 there", dims, i, v)));
+            }
+        }
+    }
+    if a != arr(dims, &vals) {
+        return Err(("equality:special-values".into(), format!("dims {:?}: two arrays built from the same special values compare unequal", dims)));
+    }
+    Ok(())
+}
+
 impl CaseKind for Case16 {
     const KIND: &'static str = "c16";
     fn size(&self) -> usize {
         match self {
+            Case16::Special { dims } => numel(dims) + dims.len(),
             Case16::Construct { vals, dims } | Case16::Equality { vals, dims } => vals.len() + dims.len(),
             Case16::Refuse(_) => 4,
         }
@@ -228,6 +259,7 @@ impl CaseKind for Case16 {
     fn sample(&self) -> Value {
         match self {
             Case16::Construct { dims, .. } => json!({"construct+index": dims}),
+            Case16::Special { dims } => json!({"special-values": dims}),
             Case16::Equality { dims, .. } => json!({"equality": dims}),
             Case16::Refuse(b) => json!({"refuse": format!("{:?}", b)}),
         }
@@ -238,6 +270,10 @@ impl CaseKind for Case16 {
             Case16::Construct { dims, vals } => {
                 k.s("c").us(dims);
                 (run_construct(dims, vals), dims.len() >= 2, "construct+index")
+            }
+            Case16::Special { dims } => {
+                k.s("s").us(dims);
+                (run_special(dims), true, "special-values")
             }
             Case16::Equality { dims, vals } => {
                 k.s("e").us(dims);
@@ -335,6 +371,7 @@ pub fn run(ctx: &Ctx) -> i32 {
             Some(if i % 2 == 0 { Case16::Construct { dims: s.clone(), vals } } else { Case16::Equality { dims: s.clone(), vals } })
         },
     ));
+    st.merge(ctx.run_indexed("special-values", ns, Some("subnormals, signed zeros, smallest/largest normal numbers, epsilon through every constructor and index on all small shapes; a subnormal is not equal to zero"), |i| Some(Case16::Special { dims: shapes[i as usize].clone() })));
     let bad = refusals(&all_shapes(4, 3));
     st.merge(ctx.run_indexed("refused-constructions", bad.len() as u64, None, |i| Some(Case16::Refuse(bad[i as usize].clone()))));
     let (max_size, total) = t.pick((7usize, 12000u64), (10, 200000));
